@@ -51,6 +51,10 @@ def universe(tier):
             10 ** 400, -10 ** 400, BIG2000, -BIG2000, 2 * BIG2000]
     floats = [0.0, -0.0, 0.1, 0.3, 0.5, 0.75, 1.0, 1.5, 2.0, 2.5, 3.0, 0.25, -0.5, -1.0, -1.5, -2.0, 4.5, 6.0]
     ints += [5, 8, 9, 100, -3, -7, 2 ** 52, 2 ** 1024 + 1, 3 * 2 ** 1024, -(2 ** 64), -(10 ** 22)]
+    # the band of 1024-bit integers: up to the rounding midpoint 2**1024 - 2**969 they convert to MAXF, from
+    # it on float() overflows although the bit length is the same
+    mid = 2 ** 1024 - 2 ** 969
+    ints += [mid - 1, mid, mid + 1, 2 ** 1024 - 1, -(mid), -(2 ** 1024 - 1), 3 * 2 ** 1022]
     floats += [0.2, 0.7, 0.01, 0.0075, 0.0001, 1.1, 1e16, 1e17, -0.1, -0.75, 7.0, 7.5, 0.125, 123456789.125,
                4503599627370495.5, -3.0]
     powers = [-1074, -1022, -1000, -52, -26, -1, 26, 52, 53, 64, 1000, 1023]
